@@ -12,7 +12,9 @@ Domain : histories of <= 25 ops over <= 2 proxies (each its own connection) and 
               ["disc", p]   proxy._pyroRelease()                             ["reco", p]   proxy._pyroReconnect()
               ["call", p]   an unrelated normal call on proxy p (makes the recorded sequence number of its streams diverge:
                             close() then takes the "temporary second proxy" path)
-              ["hk"]        daemon._housekeeping() from the harness thread   ["adv", dt]   advance the virtual clock
+              ["hk"]        housekeeping from the harness thread: daemon._housekeeping() (thread server) / daemon.events([]), i.e. one
+                            round of an application-driven event loop in which no socket was ready (multiplex server)
+              ["adv", dt]   advance the virtual clock
               ["hkn", s]    next() on stream s from a helper thread; while the server-side generator is producing that item the
                             harness runs daemon._housekeeping() (thread server; s >= 4: the stream's lifetime has just run out)
          entity references are indices modulo the population: a stream reference 0..5 is taken modulo the LIVE population
@@ -709,7 +711,12 @@ class _Run(object):
             self.viol("call-wrong-result", "an unrelated call between stream operations returned %.80r instead of %r" % (r, n))
 
     def op_hk(self):
-        self.D._housekeeping()
+        if self.servertype == "multiplex":
+            # an application that drives the daemon from its own event loop calls daemon.events(<ready sockets>): a round in
+            # which nothing was ready is the multiplex server's documented way of getting its housekeeping done
+            self.D.events([])
+        else:
+            self.D._housekeeping()
         for s in self.streams:
             why = self.expired_why(s)
             if why:
